@@ -338,6 +338,12 @@ func gen(t *rapid.T) Case {
 			name := rapid.SampledFrom([]string{"/zz-ref", "/!ref"}).Draw(t, "pathrefname") // after / before its target
 			paths[name] = map[string]any{"$ref": "#/paths/" + strings.ReplaceAll(strings.ReplaceAll(tk, "~", "~0"), "/", "~1")}
 			h.Extra("pair:PathItem.$ref(local)", 1)
+			if rapid.Bool().Draw(t, "pathrefchain") {
+				// a reference to that reference: each keeps the value it was written with
+				first := rapid.SampledFrom([]string{"/zzz-chain", "/!!chain", "/!chain"}).Draw(t, "pathchainname") // after / before both / between
+				paths[first] = map[string]any{"$ref": "#/paths/" + strings.ReplaceAll(name, "/", "~1")}
+				h.Extra("pair:PathItem.$ref(local chain)", 1)
+			}
 		}
 	}
 	normal := true
